@@ -1449,3 +1449,96 @@ def body_race_run(prop: str, workload: str, nth_sym: Any, action_sym: Any, monit
                 return True
             finally:
                 w.close()
+
+
+# ----------------------------------------------------------------------------------------------- statement-level sweep race
+def sweep_stmt_race_run(prop: str, workload: str, j_sym: Any, k_sym: Any, direction: int, monitors: tuple[str, ...] = ("C02",), max_k: int = 80) -> bool:
+    """A recovery sweep and a handler of another worker interleaved at statement granularity on the
+    real SQLite file.  direction 0: the whole sweep runs just before the k-th SQL statement of the
+    handler processing the j-th message; direction 1: one whole message is processed by another
+    worker just before the k-th SQL statement of a sweep started before the j-th message.  A
+    position inside an open write transaction is not enabled (SQLite would make the other worker
+    wait for the commit): the pre-emption slips to the next statement outside a transaction.
+    Oracle: same outcome and the same executions as the undisturbed run (C10), C02 monitors."""
+    with hx.Path("sweep_stmt_race:%s:%s:%d" % (prop, workload, direction)) as P:
+        with hx.native():
+            ref = reference(workload)
+            w = World()
+            try:
+                wf = WORKLOADS[workload]()
+                spec = spec_of(wf)
+                w.submit(wf)
+                state = {"n": 0, "armed": False, "done": False, "at": None, "sql": None}
+
+                def nested() -> None:
+                    saved = (HOOKS.ctx, HOOKS.handler_base, w._in_deliver, HOOKS.on_statement)
+                    HOOKS.on_statement = None
+                    try:
+                        if direction == 0:
+                            w.processor.run_recovery()
+                        else:
+                            w.step_fifo()
+                    finally:
+                        HOOKS.ctx, HOOKS.handler_base, w._in_deliver, HOOKS.on_statement = saved
+
+                def hook(conn: Any, sql: str) -> None:
+                    if state["done"]:
+                        return
+                    state["n"] += 1
+                    if not state["armed"] and state["n"] <= max_k and hx.decide_eq(k_sym, state["n"]):
+                        state["armed"] = True
+                    if state["armed"] and not conn.in_transaction and sql not in ("COMMIT", "ROLLBACK"):
+                        state["done"] = True
+                        state["at"] = state["n"]
+                        state["sql"] = " ".join(sql.split()[:4])
+                        nested()
+
+                step = 0
+                raced_at = None
+                while step < MAX_STEPS:
+                    if raced_at is None and hx.decide_eq(j_sym, step):
+                        raced_at = step
+                        HOOKS.on_statement = hook
+                        try:
+                            if direction == 0:
+                                more = w.step_fifo()
+                            else:
+                                w.processor.run_recovery()
+                                more = True
+                        finally:
+                            HOOKS.on_statement = None
+                        if not more:
+                            break
+                        step += 1
+                        continue
+                    if not w.step_fifo():
+                        break
+                    step += 1
+                w.processor._check_dlq()
+                snap = w.snapshot()
+                summ = summarize(snap)
+                what = "sweep_inside_handler" if direction == 0 else "handler_inside_sweep"
+                if raced_at is None or state["at"] is None:
+                    return True  # j beyond the run or k beyond the statements: nothing raced (not counted as reached)
+                handled = w.handled[-1][0] if w.handled else None
+                P.reached("%s step %d stmt %d" % (what, raced_at, state["at"]), {"workload": workload, "step": raced_at, "statement": state["at"], "sql": state["sql"]})
+                info = {"workload": workload, "race": what, "at_step": raced_at, "before_statement": state["at"], "sql": state["sql"], "final": summ["stages"], "workflow": summ["workflow"], "errors": w.handler_errors[:3], "last_handled": handled}
+                if step >= MAX_STEPS:
+                    return P.fail("%s/stmt_race/%s/%s/no_termination" % (prop, workload, what), info)
+                for m in monitors:
+                    bad = MONITORS[m](w, spec)
+                    if bad is not None:
+                        return P.fail("%s/stmt_race/%s/%s/%s" % (prop, workload, what, bad[0]), {**info, "detail": bad[1]})
+                rs = ref["summary"]
+                if summ["workflow"] != rs["workflow"] or summ["stages"] != rs["stages"]:
+                    return P.fail("%s/stmt_race/%s/%s/outcome_differs/%s" % (prop, workload, what, state_sig(summ)), {**info, "expected": rs["stages"]})
+                a_, b_ = Counter((r, t) for r, t, _ in _ledger_view(w)), Counter((r, t) for r, t, _ in ref["ledger"])
+                if a_ != b_:
+                    return P.fail("%s/stmt_race/%s/%s/executions_differ" % (prop, workload, what), {**info, "extra": sorted((a_ - b_).elements())[:4], "missing": sorted((b_ - a_).elements())[:4]})
+                q = quiescent_ok(snap)
+                if q is not None:
+                    return P.fail("%s/stmt_race/%s/%s/not_quiescent/%s" % (prop, workload, what, state_sig(summ)), {**info, "why": q})
+                return True
+            finally:
+                HOOKS.on_statement = None
+                w.close()
